@@ -14,6 +14,13 @@ def check(run):
     run.obligation("Tie_Pattern: translated ResolveAbility/ResolveResource/DefaultDerives = model (forall inputs)",
                    tie["ok"], tie["mode"] + " " + tie["log"][-300:])
     run.cov["translator_tie"] = tie["mode"]
+    # 1b. chain level: what a pattern grants one or two delegations up (ability and resource patterns at every level of
+    #     chains of depth 1..3, resources read by schema.DIDString) through the validator model
+    from props import _worlds
+    wstats = _worlds.run(run, env, "C16W", key_prefix="chain-model-vs-impl", extra_ties=())
+    if wstats is not None:
+        run.cov["pattern_chain_worlds"] = wstats.get("worlds")
+        run.cov["pattern_chain_worlds_authorized"] = wstats.get("authorized")
     # 2. correspondence
     wd = os.path.join(run.wd, "cases")
     shutil.rmtree(wd, ignore_errors=True); os.makedirs(wd)
